@@ -3,6 +3,7 @@ package main
 import (
 	"bytes"
 	"fmt"
+	"reflect"
 	"time"
 
 	"go.sia.tech/core/consensus"
@@ -22,6 +23,17 @@ func cloneTxn(t types.Transaction) types.Transaction {
 	return c
 }
 
+// cloneV2 copies through the wire format (V2Transaction.DeepCopy shares the renewal struct, see C09)
+func cloneV2(t types.V2Transaction) types.V2Transaction {
+	var buf bytes.Buffer
+	e := types.NewEncoder(&buf)
+	t.EncodeTo(e)
+	e.Flush()
+	var c types.V2Transaction
+	c.DecodeFrom(types.NewBufDecoder(buf.Bytes()))
+	return c
+}
+
 func cloneBlock(b types.Block) types.Block {
 	c := b
 	c.MinerPayouts = append([]types.SiacoinOutput(nil), b.MinerPayouts...)
@@ -33,7 +45,7 @@ func cloneBlock(b types.Block) types.Block {
 		v2 := *b.V2
 		v2.Transactions = nil
 		for _, t := range b.V2.Transactions {
-			v2.Transactions = append(v2.Transactions, t.DeepCopy())
+			v2.Transactions = append(v2.Transactions, cloneV2(t))
 		}
 		c.V2 = &v2
 	}
@@ -47,6 +59,37 @@ func copySCI(in types.V2SiacoinInput) types.V2SiacoinInput {
 func copySFI(in types.V2SiafundInput) types.V2SiafundInput {
 	t := types.V2Transaction{SiafundInputs: []types.V2SiafundInput{in}}
 	return t.DeepCopy().SiafundInputs[0]
+}
+
+var currencyT = reflect.TypeOf(types.Currency{})
+
+// currencyFields collects pointers to every Currency inside v (through slices, pointers, structs, interfaces)
+func currencyFields(v reflect.Value, out *[]*types.Currency, depth int) {
+	if depth > 12 || !v.IsValid() {
+		return
+	}
+	switch v.Kind() {
+	case reflect.Struct:
+		if v.Type() == currencyT {
+			if v.CanAddr() {
+				*out = append(*out, v.Addr().Interface().(*types.Currency))
+			}
+			return
+		}
+		for i := 0; i < v.NumField(); i++ {
+			if v.Type().Field(i).IsExported() {
+				currencyFields(v.Field(i), out, depth+1)
+			}
+		}
+	case reflect.Slice, reflect.Array:
+		for i := 0; i < v.Len(); i++ {
+			currencyFields(v.Index(i), out, depth+1)
+		}
+	case reflect.Ptr, reflect.Interface:
+		if !v.IsNil() {
+			currencyFields(v.Elem(), out, depth+1)
+		}
+	}
 }
 
 type variant struct {
@@ -64,6 +107,9 @@ func (c *lchain) resignV1(txn *types.Transaction) {
 			if in.UnlockConditions.UnlockHash() == c.addr1(k) {
 				keyFor[types.Hash256(in.ParentID)] = k
 			}
+		}
+		if o, ok := specialUCs[in.UnlockConditions.UnlockHash()]; ok && o.key >= 0 {
+			keyFor[types.Hash256(in.ParentID)] = o.key
 		}
 	}
 	for _, in := range txn.SiafundInputs {
@@ -272,7 +318,82 @@ func (c *lchain) variants(b types.Block) []variant {
 			add("c02.v1-dup-siafund-input", nb, "reject", "")
 		}
 	}
+	// C02/C01: a v1 input whose ParentID is the ID of an element of another kind created earlier in the block
+	for ti, txn := range b.Transactions {
+		for fi := range txn.FileContracts {
+			for k := 0; k < 3; k++ {
+				nb := cloneBlock(b)
+				t := types.Transaction{SiacoinInputs: []types.SiacoinInput{{ParentID: types.SiacoinOutputID(nb.Transactions[ti].FileContractID(fi)), UnlockConditions: c.uc(k)}},
+					SiacoinOutputs: []types.SiacoinOutput{{Value: types.Siacoins(1), Address: c.addr1(k)}}}
+				c.resignV1(&t)
+				nb.Transactions = append(nb.Transactions, t)
+				add("c02.v1-alias-parent-id", nb, "reject", "")
+			}
+		}
+		// C10: every currency field pushed to an extreme value (re-signed): never a panic
+		var fields []*types.Currency
+		probe := cloneTxn(txn)
+		currencyFields(reflect.ValueOf(&probe).Elem(), &fields, 0)
+		for fi := range fields {
+			if r.rng.IntN(3) != 0 {
+				continue
+			}
+			nb := cloneBlock(b)
+			var fs []*types.Currency
+			currencyFields(reflect.ValueOf(&nb.Transactions[ti]).Elem(), &fs, 0)
+			switch r.rng.IntN(3) {
+			case 0:
+				*fs[fi] = types.MaxCurrency
+			case 1:
+				*fs[fi] = types.NewCurrency(0, 1<<63)
+			default:
+				*fs[fi] = types.ZeroCurrency
+			}
+			c.resignV1(&nb.Transactions[ti])
+			add("c10.v1-extreme-currency", nb, "", "")
+		}
+	}
 	// ---- v2 ----
+	prevRev := map[types.FileContractID]types.V2FileContract{}
+	if b.V2 != nil {
+		for ti, txn := range b.V2.Transactions {
+			var fields []*types.Currency
+			probe := cloneV2(txn)
+			currencyFields(reflect.ValueOf(&probe).Elem(), &fields, 0)
+			for fi := range fields {
+				if r.rng.IntN(3) != 0 {
+					continue
+				}
+				nb := cloneBlock(b)
+				var fs []*types.Currency
+				currencyFields(reflect.ValueOf(&nb.V2.Transactions[ti]).Elem(), &fs, 0)
+				if fi >= len(fs) {
+					continue
+				}
+				switch r.rng.IntN(3) {
+				case 0:
+					*fs[fi] = types.MaxCurrency
+				case 1:
+					*fs[fi] = types.NewCurrency(0, 1<<63)
+				default:
+					*fs[fi] = types.ZeroCurrency
+				}
+				c.resignV2(&nb.V2.Transactions[ti])
+				add("c10.v2-extreme-currency", nb, "", "")
+			}
+			// C03: a second revision in the block must be signed by the keys the first one installed
+			for ri, rv := range txn.FileContractRevisions {
+				if prev, ok := prevRev[rv.Parent.ID]; ok && prev.RenterPublicKey != rv.Parent.V2FileContract.RenterPublicKey {
+					nb := cloneBlock(b)
+					rev := &nb.V2.Transactions[ti].FileContractRevisions[ri].Revision
+					c.signContract(rev, c.keyIdx(rv.Parent.V2FileContract.RenterPublicKey), c.keyIdx(rv.Parent.V2FileContract.HostPublicKey))
+					add("c03.v2-second-revision-signed-by-replaced-key", nb, "reject", "")
+				}
+				prevRev[rv.Parent.ID] = rv.Revision
+			}
+		}
+	}
+	revisedEarlier := map[types.FileContractID]types.V2FileContract{}
 	if b.V2 != nil {
 		for ti, txn := range b.V2.Transactions {
 			if len(txn.SiacoinInputs) > 0 {
@@ -394,6 +515,10 @@ func (c *lchain) variants(b types.Block) []variant {
 			}
 			for ri, rv := range txn.FileContractRevisions {
 				cur := rv.Parent.V2FileContract
+				if prev, ok := revisedEarlier[rv.Parent.ID]; ok {
+					cur = prev // the contract as it currently stands inside this block
+				}
+				revisedEarlier[rv.Parent.ID] = rv.Revision
 				rk, hk := c.keyIdx(cur.RenterPublicKey), c.keyIdx(cur.HostPublicKey)
 				mk := func(name string, f func(rev *types.V2FileContract), signR, signH int, exp string) {
 					nb := cloneBlock(b)
@@ -499,6 +624,8 @@ func (c *lchain) variants(b types.Block) []variant {
 					}
 					remake("c03.v2-renewal-signed-by-other-key", func(rn *types.V2FileContractRenewal) {}, (rk+1)%4, hk, "reject")
 					remake("c03.v2-renewal-changes-renter-key", func(rn *types.V2FileContractRenewal) { rn.NewContract.RenterPublicKey = c.keys[(rk+1)%4].PublicKey() }, rk, hk, "reject")
+					remake("c10.v2-renewal-host-rollover-max", func(rn *types.V2FileContractRenewal) { rn.HostRollover = types.MaxCurrency }, rk, hk, "reject")
+					remake("c10.v2-renewal-renter-rollover-max", func(rn *types.V2FileContractRenewal) { rn.RenterRollover = types.MaxCurrency }, rk, hk, "reject")
 					remake("c07.v2-renewal-payout-mismatch", func(rn *types.V2FileContractRenewal) {
 						rn.FinalRenterOutput.Value = rn.FinalRenterOutput.Value.Add(types.NewCurrency64(1))
 					}, rk, hk, "reject")
@@ -578,6 +705,47 @@ func (c *lchain) boundaryProbes() []variant {
 			add(fmt.Sprintf("c08.v2-maturity%+d", -d), nil, []types.V2Transaction{txn}, d == 0)
 		}
 		break
+	}
+	// policy locks (height compared with the parent block, time with the median) and v1 timelocks
+	if v2ok {
+		n := 0
+		for _, e := range sortedSC(c.st().sces) {
+			o, ok := v2policies[e.SiacoinOutput.Address]
+			if !ok || e.MaturityHeight > child || e.SiacoinOutput.Value.IsZero() || n >= 3 {
+				continue
+			}
+			th, isT := o.policy.Type.(types.PolicyTypeThreshold)
+			if !isT || int(th.N) != len(th.Of) {
+				continue
+			}
+			locked := false
+			for _, sp := range th.Of {
+				switch sp.Type.(type) {
+				case types.PolicyTypeAbove, types.PolicyTypeAfter:
+					locked = true
+				}
+			}
+			if !locked {
+				continue
+			}
+			n++
+			txn := types.V2Transaction{SiacoinInputs: []types.V2SiacoinInput{{Parent: e.Copy()}}, SiacoinOutputs: []types.SiacoinOutput{{Value: e.SiacoinOutput.Value, Address: c.addr2(0)}}}
+			c.signV2Inputs(&txn, []v2owner{o}, nil)
+			add("c08.v2-policy-lock", nil, []types.V2Transaction{txn}, c.policyUnlocked(o.policy))
+		}
+	}
+	if v1ok {
+		for _, e := range sortedSC(c.st().sces) {
+			o, ok := specialUCs[e.SiacoinOutput.Address]
+			if !ok || o.key < 0 || e.MaturityHeight > child || e.SiacoinOutput.Value.IsZero() {
+				continue
+			}
+			if d := int64(o.uc.Timelock) - int64(child); d >= -1 && d <= 1 {
+				txn := types.Transaction{SiacoinInputs: []types.SiacoinInput{{ParentID: e.ID, UnlockConditions: o.uc}}, SiacoinOutputs: []types.SiacoinOutput{{Value: e.SiacoinOutput.Value, Address: c.addr1(0)}}}
+				c.signV1(&txn, map[types.Hash256]int{types.Hash256(e.ID): o.key}, false)
+				add(fmt.Sprintf("c08.v1-timelock%+d", -d), []types.Transaction{txn}, nil, d <= 0)
+			}
+		}
 	}
 	// v1 contracts: revision and proof around the window
 	if v1ok {
